@@ -63,6 +63,19 @@ Theorem C06_written_first : forall w lg m l,
 Proof. exact written_first_thm. Qed.
 Print Assumptions C06_written_first.
 
+(* zapio.Writer (not among the front ends the property enumerates) returns early from Write when its
+   level is disabled, also at Panic/Fatal: the statement holds for it only when the level is enabled
+   (known finding zapio-terminal-disabled) *)
+Theorem C06_zapio_partial : forall w lg io l,
+  enabled w (lcore lg) l = true -> terminal lg l ->
+  log_call w lg io (fam_of zapio_method) l =
+  (write_events io l (cores_of (check w (lcore lg) l None)), Some (expected_action lg l)).
+Proof. exact zapio_partial. Qed.
+Print Assumptions C06_zapio_partial.
+Theorem C06_zapio_full_refuted : ~ zapio_full.
+Proof. exact zapio_full_refuted. Qed.
+Print Assumptions C06_zapio_full_refuted.
+
 (* the code before the zapgrpc fix: Fatalln on a logger with Fatal disabled returned *)
 Theorem C06_terminates_orig_refuted : ~ terminates_orig_full.
 Proof. exact terminates_orig_refuted. Qed.
@@ -76,7 +89,7 @@ Print Assumptions C06_wire.
 Definition ex_logger : logger :=
   {| lcore := Tee [Leaf 0 (ELvl InfoL); Hooked (Leaf 1 (ELvl InvalidL)) 3; Sampled (Leaf 2 (EAtom 0))];
      dev := true; on_panic := HNoop; on_fatal := HCustom 9 |}.
-Example C06_example_methods : length methods = 59%nat /\ In fatalln methods.
+Example C06_example_methods : length methods = 58%nat /\ In fatalln methods.
 Proof. vm_compute. split; [reflexivity|tauto]. Qed.
 Example C06_example_fatal :
   log_call (fun _ => ErrorL) ex_logger all_io FGrpcPrintln FatalL =
